@@ -550,6 +550,12 @@ func Build(spec Spec) *Built {
 		if ui == 2 {
 			fa.Rename["m/d0"] = "dzero" // renamed import
 		}
+		var fdot *File
+		if ui == 1 {
+			// (package u1 therefore declares no function named like a constructor of d0: it would collide with the dot import)
+			fdot = b.NewFile(u, "dot.go")
+			fdot.Rename["m/d0"] = "."
+		}
 
 		usedNames := map[string]bool{}
 		holder := b.d("hold")
@@ -706,6 +712,20 @@ func Build(spec Spec) *Built {
 				n, _ := b.FuncNode(u, b.d("viaPub"), false, nil, f, body)
 				f.Decls = append(f.Decls, n)
 			}
+			// a file that dot-imports the declaring package: every reference is a bare identifier
+			if fdot != nil && t.Pkg.Path == "m/d0" && exportedName(t.Name) {
+				body, decls := stmts(pick(func(tm Tmpl) bool { return tm.Name != "local-named-like-imported-package" }, 6), "dot-import", "dot-import-file")
+				n, _ := b.FuncNode(u, b.d("dotf"), false, nil, fdot, body)
+				for _, d := range decls {
+					for _, l := range d.flat(nil) {
+						l.Feature = "dot-import"
+					}
+					d.Pin = fdot.Name
+				}
+				n.Pin = fdot.Name
+				fdot.Decls = append(fdot.Decls, n)
+				fdot.Decls = append(fdot.Decls, decls...)
+			}
 			// inside a @testonly function of the using package: TONL silent, everything else as usual
 			if ui != 1 { // package u1 declares no annotated item of its own
 				body, _ := stmts(pick(noDecl, 3), "", "in-testonly-func")
@@ -738,7 +758,7 @@ func Build(spec Spec) *Built {
 					f.Decls = append(f.Decls, vs...)
 				}
 				// a function of this package that merely has the name of a listed constructor
-				if t.Ctors != nil && !usedNames[t.Ctors[0]] {
+				if t.Ctors != nil && !usedNames[t.Ctors[0]] && fdot == nil {
 					usedNames[t.Ctors[0]] = true
 					body, _ := stmts(pick(func(tm Tmpl) bool { return !tm.Decl && (tm.Cat == IMM || tm.Cat == CTOR) && (exportedName(t.Name) || tm.NoImp) }, 4), "xpkg-ctor-name", "xpkg-ctor-name")
 					n, _ := b.FuncNode(u, t.Ctors[0], false, nil, f, body)
